@@ -61,8 +61,14 @@ def run_config(cfg):
             for f in os.listdir(recdir):
                 os.unlink(os.path.join(recdir, f))
             ctx = dict(ctx, a=ctx['a'] + 100, k0='y', k1=[3], k2='new')
-            lab = Lab(storage=os.path.join(d, 'store'), runner_backend=cfg['backend'], max_workers=cfg['max_workers'],
-                      context=dict(ctx), notebook=False)
+            if cfg['rerun'] == 'rebind':
+                lab.context = dict(ctx)          # the same Lab is given another context object
+            elif cfg['rerun'] == 'inplace':
+                lab.context.clear()              # the Lab's context object is changed in place
+                lab.context.update(ctx)
+            else:
+                lab = Lab(storage=os.path.join(d, 'store'), runner_backend=cfg['backend'], max_workers=cfg['max_workers'],
+                          context=dict(ctx), notebook=False)
             res = lab.run_tasks(tasks, bust_cache=True, disable_progress=True, disable_top=True)
         recs = []
         for f in sorted(os.listdir(recdir)):
@@ -124,6 +130,10 @@ def run(prop, report, tier, seed, replay=None):
             cfgs.append(dict(backend=b, max_workers=2, filter='none', n=2, context={'a': 1, 'k0': 'x'}, helper_thread=False, rerun=False))
         for b in ('serial', 'fork'):
             cfgs.append(dict(backend=b, max_workers=2, filter=False, n=2, context={'a': 1}, lock_in_context=True, helper_thread=False, rerun=False))
+        # the context of one Lab object changes between two runs: rebound to another dict, or updated in place
+        for b, how, filt in (('serial', 'rebind', True), ('fork', 'rebind', False), ('fork', 'inplace', True), ('serial', 'inplace', False)) + \
+                ((('spawn', 'rebind', True),) if tier == 'thorough' else ()):
+            cfgs.append(dict(backend=b, max_workers=2, filter=filt, n=2, context={'a': 1, 'k0': 'x', 'k1': [1, 2]}, helper_thread=False, rerun=how))
     dist = Counter()
     samples = []
     baseline = {}
